@@ -54,13 +54,17 @@ func selfTest(ctx *core.Ctx) error {
 	}
 	for _, m := range []string{"crUnescaped", "noSepAfterName", "hashUnescaped", "backslashUnescaped", "nildict"} {
 		cfg := strings.Replace(string(base), `Mutation = "none"`, `Mutation = "`+m+`"`, 1)
-		if m == "nildict" { // the formatter as coded, with a nil Dict among the tokens
-			cfg = strings.Replace(string(base), `"nilarr"}`, `"nilarr", "nildict"}`, 1)
+		if m == "nildict" { // the formatter before the repair of the nil Dict case
+			cfg = strings.Replace(string(base), `NilDictIsNull = TRUE`, `NilDictIsNull = FALSE`, 1)
 		}
 		if cfg == string(base) {
 			return core.Infra("self-test: cannot derive the %s configuration", m)
 		}
-		res, err := ctx.TLC(core.TLCOpts{Dir: "syntax", Module: "MC_PdfSyntax", CfgText: cfg, Workers: 8, Mode: "negative-control", XssMB: 512, Quiet: true})
+		o := core.TLCOpts{Dir: "syntax", Module: "MC_PdfSyntax", CfgText: cfg, Workers: 8, Mode: "negative-control", XssMB: 512, Quiet: true}
+		if m == "nildict" {
+			o.CfgText, o.Cfg = "", "MC_PdfSyntax_nildict_ascoded.cfg"
+		}
+		res, err := ctx.TLC(o)
 		if err != nil {
 			return err
 		}
